@@ -109,6 +109,20 @@ fn shard(seed: u64, shard: u64, n: u64) -> Tally {
             t.count("cases_without_a_host_header");
         }
         let (mut case, _) = make_case(&l, &cfg, &mut sp, &ov, gen_delta_ns(&mut r));
+        // further Authorization lines after the one that authenticates (a proxy's Basic / Bearer credentials, a stale SigV4
+        // header): not looked at, and handed back like every other header line
+        if l.carrier == crate::rm::decide::Carrier::Header && r.chance(1, 6) {
+            for _ in 0..1 + r.usize_below(2) {
+                let v: &[u8] = r.pick_bytes(&[
+                    b"Basic dXNlcjpwYXNz",
+                    b"Bearer abc.def.ghi",
+                    b"AWS4-HMAC-SHA256 Credential=AKIDOTHER/20110909/us-east-1/host/aws4_request, SignedHeaders=host, Signature=00",
+                    b"",
+                ]);
+                case.wire.headers.push((b"Authorization".to_vec(), v.to_vec()));
+            }
+            t.count("cases_with_further_authorization_lines");
+        }
         case.script.ready_pending = r.below(3) as u8;
         case.script.ans_pending = r.below(3) as u8;
         case.wire.version = r.below(5) as u8;
@@ -310,6 +324,7 @@ pub fn run(tier: Tier) -> i32 {
     ctx.gate("accepted, folded", tally.get("accepted_folded"), tier.n(3000, 50_000));
     ctx.gate("accepted, not folded", tally.get("accepted_not_folded"), tier.n(5000, 50_000));
     ctx.gate("HTTP versions seen", (0..5).filter(|v| tally.get(&format!("version/{}", v)) > 0).count() as u64, 5);
+    ctx.gate("cases with further Authorization lines after the authenticating one", tally.get("cases_with_further_authorization_lines"), tier.n(1000, 30_000));
     ctx.gate("body types seen (Bytes, Vec<u8>, ())", (0..3).filter(|v| tally.get(&format!("body_kind/{}", v)) > 0).count() as u64, 3);
     ctx.gate("accepted requests without a Host header (authority in the target, `:authority` signed)", tally.get("accepted_without_a_host_header"), tier.n(1_000, 30_000));
     ctx.gate("accepted requests of services with signed-header requirements", tally.get("cases_with_requirement_sets"), tier.n(2_000, 50_000));
